@@ -6,6 +6,15 @@ props = [json.loads(l)['id'] for l in open(os.path.join(V, 'properties.jsonl'))]
 TECH = "SMT-based symbolic execution of go/ssa (bounded model checking; z3 decides every obligation)"
 claims = {
 
+ "C04": dict(
+  text="Per-handler guard completeness of the peering handshake, each handler executed from SSA on an arbitrary frame with an arbitrary decoded body from the state its step expects: handlePeeringRequest accepts only if not from self, identity address == frame source, identity verified (address = hash of key), no live link to that peer, the signed frame verified under that identity's key, link version 1, same universe, challenge >= 16 bytes, and replies self->remote, signed, echoing the received challenge with the universe proof over (universe|challenge|secret|requester|responder) iff a secret is configured; handlePeeringResponse / handlePeeringAck accept only in their step, verified under the step-1 session, remote->self, no error, own challenge echoed exactly, universe proof equal to the recomputed one (self-then-remote order), key share present where the role needs it; handle advances the step exactly on success; handleSetup registers the link only after handshake, key derivation and label assignment succeeded, under the verified session's address, else closes; the three-message key exchange and DeriveSessionFromKX give both ends matching end-to-end and link keys with distinct directions.",
+  note="CBOR = arbitrary decoded struct; Ed25519/BLAKE3/X25519/ChaCha20-Poly1305 idealised and recorded; the resistance to altered/truncated/replayed/reflected messages follows on paper from these guards plus C02 (any authenticated byte is covered) and the 32 fresh challenge bytes; no Dolev-Yao multi-session search.",
+  tech=TECH),
+ "C09": dict(
+  text="PARTIAL: the local obligations flooding rests on, not mesh-level convergence. (forwardcopy) a frame of every size up to 20200 bytes received as the link reader receives it can be cloned and given one more hop record within the protocol limits, keeping the link margins and changing neither protected bytes nor the original; (filter) AnnouncePingHandler.Handle never forwards to the origin, the receiving link, routers already in the hop chain or lite peers, and forwards nothing when the route was not added, the router is a stub or its own address is in the chain; the forwarded record carries the labels of the receiving and sending links; (ttl) every forwarding step decreases the TTL and stops at 0. 'Every router holds a route to every other in every connected mesh up to 16' and 'each loop-free path at most once' are NOT claimed.",
+  note="hop record 65..400 bytes quick / 1000 thorough; hop chain depth 1 quick / 2 thorough for the filter; convergence and path counting are statements about up to 16 concurrent routers with real crypto and CBOR for which no tractable inductive invariant is known to us: outside solver-based checking of the code.",
+  tech=TECH),
+
  "C08": dict(
   text="AnnouncePingHandler.Handle / parseAnnouncePing / sessionFromAnnouncePingAttachment / signingContext executed from SSA on an announcement with an arbitrary decoded body and an arbitrary chain of up to D decoded hop records arriving over one of three links: every hop record that influences route, stored info or forwarding was verified (Ed25519ctx model) under the key bound to its router's address with a context containing this announcement's origin address and origin signature; unknown hop routers get a session only after their identity verified; own address in the chain => no effect; the added route is [self, signed hops in order with their signed delay/labels, origin] via the delivering peer, which must be the origin (no hops) or the outermost signer; forwarded copies keep body and origin signature, are never sent to origin / receiving link / routers in the chain / lite peers, and carry a new record {own address, receive latency and label, send label, previous appendix} signed with the same context.",
   note="chain depth D=2 quick / 3 thorough (the code allows 100); CBOR = arbitrary decoded struct; Ed25519ctx idealised; AddRoute/AddPublicRouterInfo are recording models; the frame's own authentication is C07.",
